@@ -81,6 +81,63 @@ pub fn prices(st: &St) -> Prices<N> {
     }
 }
 
+/// Independent liquidation predicate (C09's oracle): the statement-level definition composed in
+/// i128 from the model's building blocks (pnl, close impact, fees — each decided by its own
+/// property). `Some(None)` healthy, `Some(Some(reason))` liquidatable, `None` not computable.
+/// Remaining collateral value = collateral at the min price + pnl + close impact (negative part
+/// only, floored at -size*max_factor_for_liquidations) - all fees at the min collateral price.
+pub fn liq_ref(m: &M, p: &VPos<N>, pr: &Prices<N>, validate_min_value: bool, for_liquidation: bool) -> Option<Option<&'static str>> {
+    let mut mm = m.clone();
+    let mut pp = *p;
+    let cfg = m.cfg.clone();
+    let ops = VPosOps { market: &mut mm, pos: &mut pp };
+    let size = p.size_usd;
+    let (pnl, _, _) = ops.pnl_value(pr, &size).ok()?;
+    let cprice = if p.is_collateral_long { pr.long_token_price } else { pr.short_token_price };
+    let collateral_value = w(p.collateral) * w(cprice.min);
+    let sd: S = -(S::try_from(size).ok()?);
+    let imp = ops.position_price_impact(&sd, true).ok()?;
+    let mut impact = imp.value as i128;
+    if impact < 0 {
+        let floor = -(w(size) * w(*cfg.position.max_position_impact_factor_for_liquidations()) / w(UNIT));
+        if impact < floor {
+            impact = floor;
+        }
+    } else {
+        impact = 0;
+    }
+    let fees = ops.position_fees(&cprice, &size, imp.balance_change, false).ok()?;
+    let cost = w(fees.total_cost_amount().ok()?) * w(cprice.min);
+    let remaining = collateral_value + pnl as i128 + impact - cost;
+    let factor = if for_liquidation { *cfg.position.min_collateral_factor_for_liquidation() } else { *cfg.position.min_collateral_factor() };
+    if remaining < 0 {
+        return Some(Some(if validate_min_value { "MinCollateral" } else { "NotPositive" }));
+    }
+    if validate_min_value && remaining < w(*cfg.position.min_collateral_value()) {
+        return Some(Some("MinCollateral"));
+    }
+    if remaining == 0 {
+        return Some(Some("NotPositive"));
+    }
+    if remaining < w(size) * w(factor) / w(UNIT) {
+        return Some(Some("MinCollateralForLeverage"));
+    }
+    Some(None)
+}
+
+/// the model's own predicate, rendered like `liq_ref`
+pub fn liq_model(m: &M, p: &VPos<N>, pr: &Prices<N>, validate_min_value: bool, for_liquidation: bool) -> Option<Option<&'static str>> {
+    use gmsol_model::position::LiquidatableReason as R;
+    let mut mm = m.clone();
+    let mut pp = *p;
+    let r = VPosOps { market: &mut mm, pos: &mut pp }.check_liquidatable(pr, validate_min_value, for_liquidation).ok()?;
+    Some(r.map(|r| match r {
+        R::MinCollateral => "MinCollateral",
+        R::NotPositive => "NotPositive",
+        R::MinCollateralForLeverage => "MinCollateralForLeverage",
+    }))
+}
+
 pub fn update_fees(m: &mut M, prices: &Prices<N>) -> gmsol_model::Result<()> {
     // the order used by the store's RevertibleMarket::update_fees_state
     m.distribute_position_impact()?.execute()?;
@@ -221,6 +278,42 @@ impl Ph {
     fn check_state(&self, st: &St, prev: Option<&St>, out: &mut StepOut) {
         let m = &st.m;
         let pr = prices(st);
+        if self.on(P09) {
+            // the model's liquidation predicate against the independent definition: at the current
+            // prices and around the index price at which the definition flips (boundary probe)
+            for p in st.pos.iter().filter(|p| p.size_usd != 0) {
+                let at = |x: N| Prices { index_token_price: Price { min: x, max: x }, long_token_price: Price { min: x, max: x }, short_token_price: Price { min: 1, max: 1 } };
+                let mut points: Vec<Prices<N>> = vec![pr];
+                let liq_at = |x: N| liq_ref(m, p, &at(x), true, true).map(|r| r.is_some());
+                let (mut lo, mut hi) = (1 as N, st.price.1.saturating_mul(4).max(8));
+                if let (Some(a), Some(b)) = (liq_at(lo), liq_at(hi)) {
+                    if a != b {
+                        while hi - lo > 1 {
+                            let mid = lo + (hi - lo) / 2;
+                            match liq_at(mid) {
+                                Some(v) if v == a => lo = mid,
+                                Some(_) => hi = mid,
+                                None => break,
+                            }
+                        }
+                        for x in [lo.saturating_sub(1).max(1), lo, hi, hi + 1] {
+                            points.push(at(x));
+                        }
+                    }
+                }
+                for q in &points {
+                    for (vm, fl) in [(true, true), (true, false), (false, true), (false, false)] {
+                        out.probe_cases += 1;
+                        if let (Some(a), Some(b)) = (liq_model(m, p, q, vm, fl), liq_ref(m, p, q, vm, fl)) {
+                            out.probe_nontrivial += 1;
+                            if a != b {
+                                out.fail("C09/liquidation_predicate_differs_from_definition", format!("position {p:?} at index price {:?} (validate min value {vm}, liquidation thresholds {fl}): model says {a:?}, definition says {b:?}", q.index_token_price));
+                            }
+                        }
+                    }
+                }
+            }
+        }
         if self.on(P07) || self.on(P13) {
             for side in 0..2 {
                 let is_long = side == 0;
